@@ -53,7 +53,9 @@ uint64_t vf_probe_calls();
 uint64_t vf_probe_arg(uint64_t call, uint64_t k);
 void vf_probe_reset();
 
-// footprint recorder (C16)
+// footprint recorder (C16): objects declared shared, then every store inside a region that hits a shared object or
+// any non-stack object is counted; mutable globals / atomics / thread_locals touched are counted by vf_region_bad
+void vf_share(const void *);
 void vf_region_begin(int);
 void vf_region_end(int);
 uint64_t vf_region_outer_stores();
